@@ -126,6 +126,11 @@ Quant(q, qv, t, n) ==
                      ELSE BoolV(t >= qv.v)
     [] q = "pct"  -> IF IsU(qv) \/ n = 0 THEN U ELSE BoolV(t * 100 >= qv.v * n)
 
+\* AS BUILT (exec.c OP_OF / OP_ITER_CONDITION / OP_ITER_END): the quantifier `all` is encoded as an undefined value on the
+\* stack, so an integer quantifier that evaluates to undefined behaves as `all` (known finding D15); with ab = FALSE this is
+\* the documented semantics
+QuantAB(ab, q, qv, t, n) == IF ab /\ q = "n" /\ IsU(qv) THEN BoolV(t = n) ELSE Quant(q, qv, t, n)
+
 RECURSIVE Eval(_, _, _)
 Eval(e, env, loc) ==
   LET E(x) == Eval(x, env, loc) IN
@@ -170,28 +175,28 @@ Eval(e, env, loc) ==
          LET n == Len(e.set)
              qv == IF e.q \in {"n", "pct"} THEN E(e.qv) ELSE U
              t == Cardinality({k \in 1..n : Found(env, e.set[k])})
-         IN Quant(e.q, qv, t, n)
+         IN QuantAB(loc.ab, e.q, qv, t, n)
     [] e.t = "ofin" ->
          LET n == Len(e.set) lo == E(e.lo) hi == E(e.hi)
              qv == IF e.q \in {"n", "pct"} THEN E(e.qv) ELSE U
          IN IF IsU(lo) \/ IsU(hi) THEN U
-            ELSE Quant(e.q, qv, Cardinality({k \in 1..n : FoundIn(env, e.set[k], lo.v, hi.v)}), n)
+            ELSE QuantAB(loc.ab, e.q, qv, Cardinality({k \in 1..n : FoundIn(env, e.set[k], lo.v, hi.v)}), n)
     [] e.t = "ofat" ->
          LET n == Len(e.set) x == E(e.x)
              qv == IF e.q \in {"n", "pct"} THEN E(e.qv) ELSE U
          IN IF IsU(x) THEN U
-            ELSE Quant(e.q, qv, Cardinality({k \in 1..n : FoundAt(env, e.set[k], x.v)}), n)
+            ELSE QuantAB(loc.ab, e.q, qv, Cardinality({k \in 1..n : FoundAt(env, e.set[k], x.v)}), n)
     [] e.t = "ofrules" ->
          LET n == Len(e.set)
              qv == IF e.q \in {"n", "pct"} THEN E(e.qv) ELSE U
-         IN Quant(e.q, qv, Cardinality({k \in 1..n : env.rules[e.set[k]]}), n)
+         IN QuantAB(loc.ab, e.q, qv, Cardinality({k \in 1..n : env.rules[e.set[k]]}), n)
     \* for q of (set) : ( body )      - the body sees the current string through $ # @ !
     [] e.t = "forof" ->
          LET n == Len(e.set)
              qv == IF e.q \in {"n", "pct"} THEN E(e.qv) ELSE U
              tv(k) == Eval(e.body, env, [loc EXCEPT !.cur = e.set[k]])
              t == Cardinality({k \in 1..n : ~IsU(tv(k)) /\ Truthy(tv(k))})
-         IN Quant(e.q, qv, t, n)
+         IN QuantAB(loc.ab, e.q, qv, t, n)
     \* for q i in (lo..hi) / (v1, v2, ...) : ( body )
     [] e.t = "forin" ->
          LET qv == IF e.q \in {"n", "pct"} THEN E(e.qv) ELSE U
@@ -199,14 +204,17 @@ Eval(e, env, loc) ==
              items == IF e.it = "range"
                         THEN [k \in 1..Max2(E(e.hi).v - E(e.lo).v + 1, 0) |-> I(E(e.lo).v + k - 1)]
                         ELSE [k \in 1..Len(e.vals) |-> E(e.vals[k])]
-         IN IF rangeUndef THEN U
+         IN IF rangeUndef THEN (IF loc.ab THEN BoolV(FALSE) ELSE U)     \* as built (iter_int_range_next): an undefined bound is an empty range (D19)
             ELSE LET n == Len(items)
                      tv(k) == Eval(e.body, env, [loc EXCEPT !.vars = (e.var :> items[k]) @@ loc.vars])
                      t == Cardinality({k \in 1..n : ~IsU(tv(k)) /\ Truthy(tv(k))})
                  IN IF n = 0 THEN BoolV(FALSE)      \* assumption (manual silent, exec.c:747): a loop over nothing is false
-                    ELSE Quant(e.q, qv, t, n)
+                    ELSE QuantAB(loc.ab, e.q, qv, t, n)
 
-NoLoc == [cur |-> "none", vars |-> << >>]
+NoLoc == [cur |-> "none", vars |-> << >>, ab |-> FALSE]
+LocAB == [cur |-> "none", vars |-> << >>, ab |-> TRUE]
+\* the verdict as the virtual machine computes it where it is known to differ from the manual (D15, D19)
+VerdictAB(e, env) == LET v == Eval(e, env, LocAB) IN ~IsU(v) /\ Truthy(v)
 
 \* the verdict of a rule: its condition is defined and true
 Verdict(e, env) == LET v == Eval(e, env, NoLoc) IN ~IsU(v) /\ Truthy(v)
